@@ -4,17 +4,6 @@ Require Import List Bool ZArith Arith Lia.
 From FV Require Import Lib.Sym Model.C01 Model.C01Compile Proofs.C01 Model.C03 Model.C03Graph Proofs.C03GraphEval.
 Import ListNotations.
 
-(* the group ids of the stateful apply-path actors, in pipeline order *)
-Definition pers_op (o : opspec) (gs : gstate) : list nat :=
-  let g1 := match olabel o with Some _ => S (gfresh gs) | None => gfresh gs end in
-  match oapply o with Some a => if astateful a then [g1] else [] | None => [] end.
-
-Fixpoint pers_gids (e : expr) (gs : gstate) : list nat :=
-  match e with
-  | EOp o => pers_op o gs
-  | ESeq l r => pers_gids l gs ++ pers_gids r (build l gs)
-  end.
-
 Definition state_of (ns : list node) (g : nat) : term :=
   match lookup_gid g (trained (ev ns)) with Some s => s | None => TNone end.
 
